@@ -135,6 +135,7 @@ reg("C10", exc_ops=set(), nontrivial=nt_links, hook="paglinks", obs_fail=False,
     title="Pagelink pagination")
 reg("C11", exc_ops={"Reopen", "Clear", "Recreate", "ClearKeep"}, nontrivial=nt_pages, hook="life",
     roles=[("file", ()), ("file", ("Reopen",))], pairname="C11.twin", prefixes=["C11."],
+    mc=[("core", 4, 5), ("life", 5, 6)], gen_mc="life", extra_sources=(tlcgen.tlc_traces,),
     weights={"Reopen": 24, "Clear": 10, "Recreate": 3, "AddRule": 8, "CreateWe": 16, "DeleteWe": 6, "AddPage": 26},
     profile={"raw": 0.1, "long": 0.3, "nlrus": 12}, n=(60, 600), steps=(16, 24), title="Close/reopen/clear")
 def id_boundary_traces(pid, cfg, tier, seed, work, first_id, hook=None):
@@ -161,7 +162,7 @@ def id_boundary_traces(pid, cfg, tier, seed, work, first_id, hook=None):
     return out, {"id_boundary_histories": len(out)}
 
 
-reg("C12", exc_ops=set(), nontrivial=nt_we, mc=[("core", 4, 5), ("we", 4, 5)], gen_mc="we",
+reg("C12", exc_ops=set(), nontrivial=nt_we, mc=[("core", 4, 5), ("we", 4, 5), ("life", 5, 6)], gen_mc="we",
     extra_sources=(tlcgen.tlc_traces, tlcgen.repo_test_traces, id_boundary_traces),
     weights={"CreateWe": 14, "DeleteWe": 8, "Reopen": 18, "AddRule": 12, "Clear": 3, "AddPage": 26},
     profile={"raw": 0.0, "long": 0.1, "persist": 0.6}, n=(200, 2000), title="Webentity ids")
